@@ -116,10 +116,33 @@ def write_replay(pid, r, native=None, solver_output=None):
     return path
 
 
+def run_guards(out):
+    """Soundness guards run with every check: (1) the ast walker, executing the repository natively on concrete values,
+    must agree bit for bit with the package; (2) the library models' axioms must hold on the real numpy/scipy."""
+    import subprocess
+    env = dict(os.environ, PYTHONPATH=REPO, OMP_NUM_THREADS="1", OPENBLAS_NUM_THREADS="1")
+    g = {}
+    for name, script, args in (("interpreter_crosscheck", "crosscheck.py", []),
+                               ("library_model_conformance", "conformance.py", [str(out.seed)])):
+        try:
+            p = subprocess.run([NATIVE_PY, "-W", "ignore", os.path.join(VERIF, "native", script)] + args,
+                               capture_output=True, text=True, env=env, timeout=900)
+            d = json.loads(p.stdout.strip().splitlines()[-1])
+        except Exception as e:
+            out.errors.append(f"guard {name} did not run: {type(e).__name__}: {e}")
+            continue
+        g[name] = d
+        if d.get("disagreements") or d.get("errors") or d.get("failures"):
+            out.errors.append(f"guard {name} failed: {json.dumps(d)[:600]}")
+    out.extra["guards"] = g
+
+
 def finish(out, native_replay=None):
     """Decide, print, write evidence, return exit code.
     native_replay(result) -> dict(confirmed: bool, ...) or None."""
     known = load_known()
+    if "guards" not in out.extra:
+        run_guards(out)
     wall = lambda: round(time.time() - out.t0, 2)   # noqa: E731
     sel = out.selected
     n = len(sel)
